@@ -308,6 +308,27 @@ fn gen_constructor(s: &mut Session, rng: &mut Rng, size_cap: u32) {
         }
         return;
     }
+    if rng.chance(1, 14) {
+        // wildcard prefixes/suffixes: (bounded or unbounded) loops of Σ concatenated with a term
+        if let Some(sg) = s.cons("re all_chars".into(), 1, |m| m.all_chars()) {
+            let r = match rng.below(5) {
+                0 => LoopRange::point(rng.range(1, 3) as u32),
+                1 => LoopRange::opt(),
+                2 => LoopRange::finite(rng.below(2) as u32, rng.range(2, 3) as u32),
+                3 => LoopRange::star(),
+                _ => LoopRange::plus(),
+            };
+            if let Some(l) = s.cons(format!("re mk_loop {} {}", Session::id(sg), lr_str(&r)), 2, |m| m.mk_loop(sg, r)) {
+                let il = Session::id(l);
+                if rng.chance(2, 3) {
+                    s.cons(format!("re concat {} {}", il, ix), sx + 3, |m| m.concat(l, x));
+                } else {
+                    s.cons(format!("re concat {} {}", ix, il), sx + 3, |m| m.concat(x, l));
+                }
+            }
+        }
+        return;
+    }
     if kind < 30 {
         s.cons(format!("re concat {} {}", ix, iy), sx + sy + 1, |m| m.concat(x, y));
     } else if kind < 42 {
@@ -571,6 +592,78 @@ fn corpus(t: &mut Trace) {
     s.finish();
 }
 
+/// pairs for the inclusion test: u = a short concatenation of ranges; v = alternating Σ* and rigid
+/// blocks whose ranges are taken from (or cover) elements of u, with optional rigid prefix/suffix —
+/// overlapping candidate matches, blocks that share elements, too few elements, reversed order
+fn inclusion_session(t: &mut Trace, rng: &mut Rng, maxlen: usize) {
+    let chars = vec![97u32, 98, 99, 100];
+    let mut s = Session::new(t, chars.clone(), maxlen);
+    let full = s.cons("re full".into(), 1, |m| m.full()).unwrap();
+    // atoms: single characters and small ranges
+    let mut atoms: Vec<RegLan> = Vec::new();
+    for &c in &[97u32, 98, 99] {
+        atoms.push(s.cons(format!("re char {}", c), 1, |m| m.char(c)).unwrap());
+    }
+    for &(a, b) in &[(97u32, 98u32), (98, 99), (97, 100)] {
+        atoms.push(s.cons(format!("re range {} {}", a, b), 1, |m| m.range(a, b)).unwrap());
+    }
+    let id = Session::id;
+    let mut lefts: Vec<RegLan> = Vec::new();
+    let mut rights: Vec<RegLan> = Vec::new();
+    for _ in 0..8 {
+        // u: 1..4 atoms (mostly single characters)
+        let n = rng.range(1, 4) as usize;
+        let us: Vec<RegLan> = (0..n).map(|_| atoms[rng.below(4) as usize]).collect();
+        let ids: Vec<u32> = us.iter().map(|z| z.verif_id() as u32).collect();
+        let usc = us.clone();
+        if let Some(u) = s.cons(format!("re concat_list {}", p_nats(&ids)), n as u32 + 1, move |m| m.concat_list(usc)) {
+            lefts.push(u);
+        }
+        // v: [prefix?] Σ* block Σ* block … Σ* [suffix?], blocks built from slices of u (or covering ranges)
+        let mut vs: Vec<RegLan> = Vec::new();
+        if rng.chance(1, 4) {
+            vs.push(us[0]);
+        }
+        let nblocks = rng.range(1, 3);
+        for _ in 0..nblocks {
+            vs.push(full);
+            let start = rng.below(n as u64) as usize;
+            let len = rng.range(1, 2) as usize;
+            for q in start..std::cmp::min(start + len, n) {
+                vs.push(if rng.chance(1, 3) { atoms[3 + rng.below(3) as usize] } else { us[q] });
+            }
+        }
+        if rng.chance(3, 4) {
+            vs.push(full);
+        }
+        if rng.chance(1, 4) {
+            vs.push(us[n - 1]);
+        }
+        let ids: Vec<u32> = vs.iter().map(|z| z.verif_id() as u32).collect();
+        let k = vs.len() as u32;
+        if let Some(v) = s.cons(format!("re concat_list {}", p_nats(&ids)), k + 1, move |m| m.concat_list(vs)) {
+            rights.push(v);
+        }
+    }
+    for &u in &lefts {
+        for &v in &rights {
+            let r = p_bool(u.included_in(v));
+            s.t.count(&format!("included_in(pattern)={}", r));
+            s.rec(format!("re included_in {} {}", id(u), id(v)), r, true);
+            if rng.chance(1, 3) {
+                s.cons(format!("re union {} {}", id(u), id(v)), 12, |m| m.union(u, v));
+            }
+        }
+    }
+    for &v in &rights {
+        for &w in &rights {
+            let r = p_bool(v.included_in(w));
+            s.rec(format!("re included_in {} {}", id(v), id(w)), r, true);
+        }
+    }
+    s.finish();
+}
+
 /// terms whose operands have abutting class structures: a nullable head whose classes cover a
 /// prefix [0,k] of the alphabet followed by alternatives starting exactly at k+1 with adjacent
 /// intervals (also variants ending at MAX_CHAR) — exercises merge_partitions carry/witness paths
@@ -687,6 +780,8 @@ fn global_session(seed: u64, maxlen: usize) -> Vec<(String, String, bool)> {
                 13 => (format!("re opt {}", id(x)), Box::new(move || w::re_opt(x))),
                 14 => {
                     let k = rng.below(4) as u32;
+                    // half of the time a bounded loop of Σ (wildcard prefix material)
+                    let x = if rng.chance(1, 2) { w::re_allchar() } else { x };
                     (format!("re exp {} {}", id(x), k), Box::new(move || w::re_power(x, k)))
                 }
                 _ => {
@@ -701,6 +796,47 @@ fn global_session(seed: u64, maxlen: usize) -> Vec<(String, String, bool)> {
                     pool.push(r);
                 }
                 Err(_) => ops.push((lhs, "PANIC".into(), true)),
+            }
+        }
+        // search patterns with wildcard prefixes/suffixes and subjects whose leftmost match starts
+        // after the search start (C10)
+        {
+            let lit_codes: Vec<u32> = if rng.chance(1, 2) { vec![58] } else { vec![97, 98] };
+            let lc = lit_codes.clone();
+            let lit = w::str_to_re(&SmtString::from(&lc[..]));
+            ops.push((format!("re str {}", p_nats(&lit_codes)), id(lit), true));
+            let sg = w::re_allchar();
+            ops.push(("re all_chars".into(), id(sg), true));
+            let n = rng.range(1, 2) as u32;
+            let (wl, lhs) = match rng.below(3) {
+                0 => (w::re_power(sg, n), format!("re exp {} {}", id(sg), n)),
+                1 => (w::re_opt(sg), format!("re opt {}", id(sg))),
+                _ => (w::re_loop(sg, 1, 2), format!("re smt_loop {} 1 2", id(sg))),
+            };
+            ops.push((lhs, id(wl), true));
+            let pat = if rng.chance(3, 4) {
+                let r = w::re_concat(wl, lit);
+                ops.push((format!("re concat {} {}", id(wl), id(lit)), id(r), true));
+                r
+            } else {
+                let r = w::re_concat(lit, wl);
+                ops.push((format!("re concat {} {}", id(lit), id(wl)), id(r), true));
+                r
+            };
+            pool.push(pat);
+            for _ in 0..6 {
+                let mut subj = rand_string(&mut rng, &[97, 98, 99], 3);
+                subj.extend(rand_string(&mut rng, &[97, 98, 99], 2));
+                subj.extend_from_slice(&lit_codes);
+                subj.extend(rand_string(&mut rng, &[97, 98, 99, 58], 3));
+                if rng.chance(1, 3) {
+                    subj.extend_from_slice(&lit_codes);
+                }
+                let t = vec![84u32];
+                let r = guarded(|| p_nats(w::str_replace_re(&smt(&subj), pat, &smt(&t)).as_ref()));
+                ops.push((format!("re replace_re {} {} {}", p_nats(&subj), id(pat), p_nats(&t)), r, true));
+                let r = guarded(|| p_nats(w::str_replace_re_all(&smt(&subj), pat, &smt(&t)).as_ref()));
+                ops.push((format!("re replace_re_all {} {} {}", p_nats(&subj), id(pat), p_nats(&t)), r, true));
             }
         }
         // every term handed out by a wrapper must be the thread-local manager's own node (C07)
@@ -931,6 +1067,10 @@ pub fn run(t: &mut Trace, rng: &mut Rng, thorough: bool) {
     for k in 0..sessions {
         let (n_cons, cap) = match k % 4 { 0 => (30, 12), 1 => (50, 20), 2 => (70, 30), _ => (90, 40) };
         random_session(t, rng, n_cons, cap, if thorough { 4 } else { 3 });
+    }
+    let incl = if thorough { 300 } else { 30 };
+    for _ in 0..incl {
+        inclusion_session(t, rng, if thorough { 4 } else { 3 });
     }
     let aligned = if thorough { 300 } else { 30 };
     for _ in 0..aligned {
